@@ -105,6 +105,8 @@ inductive Err where
   | tooShort   -- `FromDataError::StorageTooShort`
   | overlap    -- `FromDataError::MayOverlap`
   | panic      -- `panic!` / failed `assert!`
+  | shapeMismatch  -- `ExpandError::ShapeMismatch`
+  | noCapacity     -- `ExpandError::InsufficientCapacity`
   deriving DecidableEq, Repr
 
 deriving instance DecidableEq for Except
@@ -114,6 +116,8 @@ def Err.toString : Err → String
   | .tooShort => "err:short"
   | .overlap => "err:overlap"
   | .panic => "panic"
+  | .shapeMismatch => "err:shape"
+  | .noCapacity => "err:cap"
 
 /-- `FromShape::from_shape` (panics for too large shapes). -/
 def fromShape (shape : List Nat) : Except Err (List (Nat × Nat)) :=
@@ -224,6 +228,60 @@ def broadcast (dims : List (Nat × Nat)) (target : List Nat) : Option (List (Nat
       some ((target.take pad).map (fun s => (s, 0)) ++
         (dims.zip tail).map (fun p => (p.2, if p.1.1 == 1 && decide (p.2 > 1) then 0 else p.1.2)))
     else none
+  else none
+
+/-- `Layout::is_broadcast`: non-empty and some stride is zero (the mutable iterators
+`LanesMut`, `AxisIterMut`, `AxisChunksMut` assert its negation). -/
+def isBroadcast (dims : List (Nat × Nat)) : Bool :=
+  len dims != 0 && dims.any (fun d => d.2 == 0)
+
+/-! ### Growing / shrinking owned tensors (`has_capacity`, `append`, `clip_dim`) -/
+
+/-- `TensorBase::<Vec<T>, L>::expanded_layout(axis, new_size)` (after the fix: the required
+length is computed by `checked_min_data_len`). `capacity` = `Vec::capacity`. -/
+def expandedLayout (dims : List (Nat × Nat)) (capacity axis newSize : Nat) :
+    Option (List (Nat × Nat)) :=
+  match checkedMinDataLen (setSize dims axis newSize) with
+  | none => none
+  | some m =>
+    if m ≤ capacity ∧ mayOverlap (setSize dims axis newSize) = false then
+      some (setSize dims axis newSize)
+    else none
+
+/-- `has_capacity(axis, new_size)` for `axis < ndim`. -/
+def hasCapacity (dims : List (Nat × Nat)) (capacity axis newSize : Nat) : Bool :=
+  (expandedLayout dims capacity axis newSize).isSome
+
+/-- The `shape_match` test of `append`. -/
+def shapeMatch (a b : List (Nat × Nat)) (axis : Nat) : Bool :=
+  a.length == b.length &&
+    (List.range a.length).all (fun d => d == axis || sizeAt a d == sizeAt b d)
+
+/-- An owned tensor: layout, `data.len()`, `data.capacity()`. -/
+structure Owned where
+  dims : List (Nat × Nat)
+  dataLen : Nat
+  cap : Nat
+  deriving DecidableEq, Repr
+
+/-- `append(axis, other)`: layout and storage length afterwards (the storage is grown to the
+new `min_data_len` by `set_len` / `resize` when it is shorter). `axis ≥ ndim` with matching
+shapes panics for `NdLayout` (`size(axis)`); for `DynLayout` it is outside this model. -/
+def append (t : Owned) (axis : Nat) (other : List (Nat × Nat)) : Except Err Owned :=
+  if !shapeMatch t.dims other axis then .error .shapeMismatch
+  else if t.dims.length ≤ axis then .error .panic
+  else
+    match expandedLayout t.dims t.cap axis (sizeAt t.dims axis + sizeAt other axis) with
+    | none => .error .noCapacity
+    | some nl => .ok ⟨nl, max t.dataLen (minDataLen nl), t.cap⟩
+
+/-- `clip_dim(dim, start..stop)`: `none` = panic (failed assert / `copy_within` out of range). -/
+def clipDim (t : Owned) (dim start stop : Nat) : Option Owned :=
+  if dim < t.dims.length ∧ start ≤ stop ∧ stop ≤ sizeAt t.dims dim then
+    let nl := setSize t.dims dim (stop - start)
+    let rangeStart := if len nl = 0 then 0 else start * strideAt nl dim
+    let rangeLen := if len nl = 0 then 0 else minDataLen nl
+    if rangeStart + rangeLen ≤ t.dataLen then some ⟨nl, min t.dataLen rangeLen, t.cap⟩ else none
   else none
 
 /-! ## Machine model (`UInt64`, wrap-around) -/
@@ -385,8 +443,31 @@ def fromStorageAndLayout (dims : List (U × U)) (dataLen : U) (mutable : Bool) :
     else if mutable && mayOverlap dims then .error .panic
     else .ok dims
 
+def setSize : List (U × U) → Nat → U → List (U × U)
+  | [], _, _ => []
+  | (_, stride) :: ds, 0, n => (n, stride) :: ds
+  | d :: ds, axis + 1, n => d :: setSize ds axis n
+
+/-- `expanded_layout` (fixed code). -/
+def expandedLayout (dims : List (U × U)) (capacity : U) (axis : Nat) (newSize : U) :
+    Option (List (U × U)) :=
+  match checkedMinDataLen (setSize dims axis newSize) with
+  | none => none
+  | some m =>
+    if m ≤ capacity ∧ mayOverlap (setSize dims axis newSize) = false then
+      some (setSize dims axis newSize)
+    else none
+
 /-! ### Constructors of the code before the fix (no overflow guards) -/
 namespace Old
+
+/-- `expanded_layout` before the second fix: wrap-around `min_data_len`. -/
+def expandedLayout (dims : List (U × U)) (capacity : U) (axis : Nat) (newSize : U) :
+    Option (List (U × U)) :=
+  if minDataLen (setSize dims axis newSize) ≤ capacity ∧
+      mayOverlap (setSize dims axis newSize) = false then
+    some (setSize dims axis newSize)
+  else none
 
 def tryFromData (shape : List U) (dataLen : U) : Except Err (List (U × U)) :=
   if minDataLen (contigDims shape) ≠ dataLen then .error .mismatch
